@@ -438,3 +438,135 @@ Section PostAll.
           destruct (Hpost k q Eq) as (s' & ev1 & P1 & P2). specialize (Hpo k q Eq). rewrite P1, E1 in Hpo. apply Hpo.
   Qed.
 End PostAll.
+
+(** * accepting a request preserves the invariant *)
+Lemma new_sequence_ok cfg prompt keep inputs keep' :
+  1 <= numCtx cfg -> new_sequence cfg prompt keep = Ok (inputs, keep') ->
+  inputs <> [] /\ 0 <= keep' < numCtx cfg /\ zlen inputs <= numCtx cfg.
+Proof.
+  intros Hc H. unfold new_sequence in H. destruct prompt as [|x prompt]; [discriminate|].
+  assert (HP : 1 <= zlen (x :: prompt)) by (rewrite zlen_cons; pose proof (zlen_nonneg prompt); lia).
+  assert (HPne : x :: prompt <> []) by discriminate.
+  remember (x :: prompt) as P eqn:EP. clear EP.
+  set (keep0 := if keep <? 0 then zlen P else keep) in *.
+  assert (Hk0 : 0 <= keep0) by (subst keep0; destruct (keep <? 0) eqn:E; lia).
+  set (k := Z.min keep0 (numCtx cfg - 1)) in *.
+  destruct (numCtx cfg <? zlen P) eqn:Elong.
+  - destruct (zlen P <=? k + (zlen P - numCtx cfg)) eqn:E1; [discriminate|]. destruct (k <? 0) eqn:E2; [discriminate|].
+    injection H as <- <-. split; [|split; [lia|]].
+    + intro E. apply (f_equal (@zlen tok)) in E. rewrite zlen_app, zlen_firstn, zlen_skipn in E. change (zlen (@nil tok)) with 0 in E. lia.
+    + rewrite zlen_app, zlen_firstn, zlen_skipn. lia.
+  - injection H as <- <-. split; [auto|]. split; lia.
+Qed.
+
+Lemma first_free_spec l i0 idx : first_free l i0 = Some idx -> (i0 <= idx < i0 + length l)%nat /\ nth (idx - i0) l None = None.
+Proof.
+  revert i0. induction l as [|o l IH]; intros i0 H; cbn [first_free] in H; [discriminate|].
+  destruct o.
+  - apply IH in H. destruct H as [H1 H2]. cbn [length]. split; [lia|]. replace (idx - i0)%nat with (S (idx - S i0)) by lia. exact H2.
+  - injection H as <-. cbn [length]. split; [lia|]. rewrite Nat.sub_diag. reflexivity.
+Qed.
+
+Lemma inv_slots_ok cfg sl kv0 qs b : mid_ok cfg sl kv0 qs b -> slots_ok kv0 sl.
+Proof.
+  intros Hm i Hi. destruct (s_inuse (nth_slot sl i)) eqn:Hu.
+  - destruct (mo_used _ _ _ _ _ Hm i Hi Hu) as (k & q & Eq & <-). apply exact_slot_ok. apply (lo_view _ _ _ _ _ (mo_live _ _ _ _ _ Hm k q Eq)).
+  - split; [apply (mo_idle _ _ _ _ _ Hm i Hi Hu)|congruence].
+Qed.
+
+Lemma submit_inv cfg st prompt np keep stops :
+  1 <= numCtx cfg -> inv cfg st -> inv cfg (fst (submit cfg st prompt np keep stops)).
+Proof.
+  intros Hc [Hm Hin]. unfold submit.
+  destruct (new_sequence cfg prompt keep) as [[inputs keep']| |] eqn:EN; try (split; auto; fail).
+  destruct (new_sequence_ok _ _ _ _ _ Hc EN) as (N1 & N2 & N3).
+  destruct (first_free (seqs st) 0) as [idx|] eqn:EF; [|split; auto].
+  apply first_free_spec in EF. rewrite Nat.sub_0_r in EF. destruct EF as [Hidx Hfree]. fold (get_seq (seqs st) idx) in Hfree.
+  destruct (load_cache_slot cfg (clock st) (slots st) (kv st) inputs) as [[[[sl kv'] si] rest]| |] eqn:EL; try (split; auto; fail).
+  destruct (load_cache_slot_ok _ _ _ _ _ _ _ _ _ N1 (inv_slots_ok _ _ _ _ _ Hm) EL) as (L1 & L2 & L3 & L4 & L5 & L6 & L7 & L8 & L9).
+  unfold inv. cbn [fst slots kv seqs].
+  set (qn := mkSeq rest [] si np 0 keep' [] stops 0 (nreq st)).
+  assert (Hold : forall j q2, get_seq (seqs st) j = Some q2 -> q_slot q2 <> si).
+  { intros j q2 E2 Hs. rewrite <- Hs in L3. rewrite (lo_inuse _ _ _ _ _ (mo_live _ _ _ _ _ Hm j q2 E2)) in L3. discriminate. }
+  split.
+  - constructor.
+    + rewrite L1, set_nth_length. apply (mo_len _ _ _ _ _ Hm).
+    + intros j q2 E2. destruct (Nat.eq_dec idx j) as [<-|Hj].
+      * rewrite get_seq_set_same in E2 by lia. injection E2 as <-. unfold qn.
+        constructor; cbn [q_slot q_pending q_inputs q_keep]; auto; try lia.
+        rewrite zlen_nil. rewrite <- L6, zlen_app in N3. pose proof (zlen_nonneg rest). lia.
+      * rewrite get_seq_set_other in E2 by auto.
+        eapply live_ok_transfer; [eapply (mo_live _ _ _ _ _ Hm); eauto|auto| |apply L8|reflexivity]; [apply L5|]; eapply Hold; eauto.
+    + intros i1 i2 q1 q2 E1 E2 Hs.
+      destruct (Nat.eq_dec idx i1) as [<-|H1], (Nat.eq_dec idx i2) as [<-|H2]; auto.
+      * rewrite get_seq_set_same in E1 by lia. rewrite get_seq_set_other in E2 by auto. injection E1 as <-.
+        exfalso. eapply Hold; eauto.
+      * rewrite get_seq_set_same in E2 by lia. rewrite get_seq_set_other in E1 by auto. injection E2 as <-.
+        exfalso. eapply Hold; eauto.
+      * rewrite get_seq_set_other in E1, E2 by auto. eapply (mo_inj _ _ _ _ _ Hm); eauto.
+    + intros i Hi Hu. rewrite L1 in Hi. destruct (Nat.eq_dec i si) as [->|Hne]; [congruence|].
+      rewrite L5 in * by auto. split; [|reflexivity]. unfold view_lt. rewrite L8 by auto. apply (mo_idle _ _ _ _ _ Hm i Hi Hu).
+    + intros i Hi Hu. rewrite L1 in Hi. destruct (Nat.eq_dec i si) as [->|Hne].
+      * exists idx, qn. split; [apply get_seq_set_same; lia|reflexivity].
+      * rewrite L5 in Hu by auto. destruct (mo_used _ _ _ _ _ Hm i Hi Hu) as (j & q2 & E2 & Hs).
+        exists j, q2. split; [|auto]. rewrite get_seq_set_other; auto. intros ->. congruence.
+  - intros j q2 E2. destruct (Nat.eq_dec idx j) as [<-|Hj].
+    + rewrite get_seq_set_same in E2 by lia. injection E2 as <-. exact L7.
+    + rewrite get_seq_set_other in E2 by auto. eapply Hin; eauto.
+Qed.
+
+(** * every reachable state satisfies the invariant *)
+Lemma nth_repeat_any {A} (x d : A) n i : (i < n)%nat -> nth i (repeat x n) d = x.
+Proof. revert i. induction n; intros [|i] H; cbn; try lia; auto. apply IHn. lia. Qed.
+
+Lemma init_inv cfg parallel : inv cfg (init parallel).
+Proof.
+  unfold init. split; cbn [slots kv seqs].
+  - constructor.
+    + rewrite !repeat_length. reflexivity.
+    + intros idx q H. unfold get_seq in H. destruct (Nat.lt_ge_cases idx parallel).
+      * rewrite nth_repeat_any in H by auto. discriminate.
+      * rewrite nth_overflow in H by (rewrite repeat_length; lia). discriminate.
+    + intros i1 i2 q1 q2 H. unfold get_seq in H. destruct (Nat.lt_ge_cases i1 parallel).
+      * rewrite nth_repeat_any in H by auto. discriminate.
+      * rewrite nth_overflow in H by (rewrite repeat_length; lia). discriminate.
+    + intros i Hi _. rewrite repeat_length in Hi. unfold nth_slot. rewrite nth_repeat_any by auto. cbn. auto.
+    + intros i Hi Hu. rewrite repeat_length in Hi. unfold nth_slot in Hu. rewrite nth_repeat_any in Hu by auto. discriminate.
+  - intros idx q H. unfold get_seq in H. destruct (Nat.lt_ge_cases idx parallel).
+    + rewrite nth_repeat_any in H by auto. discriminate.
+    + rewrite nth_overflow in H by (rewrite repeat_length; lia). discriminate.
+Qed.
+
+Section Reach.
+  Variable F : list (Z * tok) -> tok.
+
+  Lemma step_op_inv cfg st o : 1 <= numCtx cfg -> inv cfg st -> inv cfg (fst (step_op F cfg st o)).
+  Proof. intros Hc Hi. destruct o; cbn [step_op]; [apply submit_inv; auto|apply process_batch_inv; auto]. Qed.
+
+  Lemma run_inv cfg st ops : 1 <= numCtx cfg -> inv cfg st -> inv cfg (run F cfg st ops).
+  Proof.
+    intro Hc. revert st. induction ops as [|o ops IH]; intros st Hi; cbn [run fold_left]; [auto|].
+    apply IH. apply step_op_inv; auto.
+  Qed.
+
+  Lemma reachable_inv cfg parallel ops : 1 <= numCtx cfg -> inv cfg (run F cfg (init parallel) ops).
+  Proof. intro Hc. apply run_inv; auto. apply init_inv. Qed.
+End Reach.
+
+(** an accepted request gets a slot that no live sequence holds *)
+Lemma submit_fresh_slot cfg st prompt np keep stops idx :
+  inv cfg st -> snd (submit cfg st prompt np keep stops) = RSubmitted idx ->
+  exists q, get_seq (seqs (fst (submit cfg st prompt np keep stops))) idx = Some q /\
+            s_inuse (nth_slot (slots st) (q_slot q)) = false /\
+            forall j q2, get_seq (seqs st) j = Some q2 -> q_slot q2 <> q_slot q.
+Proof.
+  intros [Hm Hin]. unfold submit.
+  destruct (new_sequence cfg prompt keep) as [[inputs keep']| |] eqn:EN; try discriminate.
+  destruct (first_free (seqs st) 0) as [idx'|] eqn:EF; [|discriminate].
+  apply first_free_spec in EF. rewrite Nat.sub_0_r in EF. destruct EF as [Hidx Hfree].
+  destruct (load_cache_slot cfg (clock st) (slots st) (kv st) inputs) as [[[[sl kv'] si] rest]| |] eqn:EL; try discriminate.
+  cbn [fst snd seqs]. intro H. injection H as <-.
+  destruct (load_cache_slot_not_inuse _ _ _ _ _ _ _ _ _ EL) as [L1 L2].
+  eexists. split; [apply get_seq_set_same; lia|]. cbn [q_slot]. split; [auto|].
+  intros j q2 E2 Hs. rewrite <- Hs in L2. rewrite (lo_inuse _ _ _ _ _ (mo_live _ _ _ _ _ Hm j q2 E2)) in L2. discriminate.
+Qed.
